@@ -321,7 +321,7 @@ def expected_table(d):
     return {k: [v, True] for k, v in d.items()}
 
 
-def diff_tables(via, op, got, want, what, present):
+def diff_tables(via, op, got, want, what):
     out = []
     for k in sorted(set(got) | set(want)):
         rel = relation(via, op, k)
@@ -335,11 +335,6 @@ def diff_tables(via, op, got, want, what, present):
             d = f"{what}:md5:{rel}"
         else:
             continue
-        if rel == "self" and k not in got:   # the record the operation names is absent: say which related
-            # records were there (a collision of names)
-            near = sorted({relation(via, op, p) for p in present} - {"self", "other(unrelated)"})
-            if near:
-                d += "[beside:" + ",".join(near) + "]"
         out.append(d)
     return out
 
@@ -432,11 +427,16 @@ def run_history(via, hist, first_mode="w"):
                     best = None
                     present = set(C0) | set(N0)
                     for (aC, aN) in allowed:   # describe the disagreement against the closest permitted state
-                        d = diff_tables(via, op, gC, expected_table(aC), "completed", present) + \
-                            diff_tables(via, op, gN, expected_table(aN), "not_completed", present)
+                        d = diff_tables(via, op, gC, expected_table(aC), "completed") + \
+                            diff_tables(via, op, gN, expected_table(aN), "not_completed")
                         if best is None or len(d) < len(best[0]):
                             best = (d, aC, aN)
                     diffs, aC, aN = best
+                    if len(diffs) == 1 and diffs[0].endswith(":lost:self"):
+                        # the only symptom is that the record the operation names is absent: say which related
+                        # records were present (a collision of names)
+                        near = sorted({relation(via, op, p) for p in present} - {"self", "other(unrelated)"})
+                        diffs = [diffs[0] + "[beside:" + ",".join(near) + "]"] if near else diffs
                     if not log_fine:
                         diffs.append("logs:new-log-not-readable-or-other-log-altered" if k == "l" and mode != "r"
                                      else "logs:changed-by-non-log-operation")
@@ -475,7 +475,8 @@ def gen_history(tier, seed):
     rnd = random.Random(seed)
     thorough = tier == "thorough"
     full = alphabet(IDS)
-    small = alphabet(["a", "ba", "a.b"], logs=LOGS[:1], drops=["a"])
+    small = alphabet(["a", "ba", "a.b"], logs=LOGS[:1], drops=["a"])     # 12 operations
+    tiny = alphabet(["a", "ba"], logs=LOGS[:1], drops=["a"])              # 10 operations
     wide = alphabet(IDS + EXTRA_IDS)
     for via in ("dir", "sql"):
         # exhaustive over the full alphabet
@@ -483,7 +484,7 @@ def gen_history(tier, seed):
             for h in itertools.product(full, repeat=n):
                 yield [via, list(h)]
         # one step deeper over the reduced alphabet (the ids that are suffix / dotted-prefix of one another)
-        for h in itertools.product(small, repeat=5 if thorough else 4):
+        for h in (itertools.product(tiny, repeat=5) if thorough else itertools.product(small, repeat=4)):
             yield [via, list(h)]
         # seeded sample beyond the frontier: longer histories, more identifiers
         for _ in range(6000 if thorough else 300):
@@ -522,8 +523,9 @@ BOUNDED = {
                       "DataMember.read", "DataMember.md5"],
         "bound": "both stores, opened in mode w; every history of length <=3 (thorough <=4) over {write(i), "
                  "write_not_completed(i), drop_not_completed(i), drop_not_completed(), write_log(run1.log|run2.log), "
-                 "close+reopen(r|a|w)} with i in {a, ba, a.b, a.fa, b} (21 operations); every history of length 4 "
-                 "(thorough 5) over the reduced alphabet i in {a, ba, a.b}, drop(a), one log (12 operations); seeded "
+                 "close+reopen(r|a|w)} with i in {a, ba, a.b, a.fa, b} (21 operations); quick: every history of length "
+                 "4 over the reduced alphabet i in {a, ba, a.b}, drop(a), one log (12 operations); thorough: every "
+                 "history of length 5 over i in {a, ba}, drop(a), one log (10 operations); seeded "
                  "sample of length 4-6 (thorough 5-8) with 6 more ids; every history ends with close + re-open in "
                  "mode r; the view is compared after every step",
         "rule": "a case = (store kind, history); the view (completed, not_completed: id -> content, checksum; logs) "
